@@ -144,6 +144,22 @@ def dup_chunks(data):
                 continue
             body = data[8:b] + data[a:b] + data[b:]
             out.append(data[:4] + struct.pack(">I" if be else "<I", len(body)) + body)
+            # ... and repeated with a different leading field (a second COMM / fmt chunk announcing MORE channels than the first: tables sized by the
+            # first one -- PEAK, channel map -- must not be used with the second one's count)
+            if b - a >= 12:
+                for patch_at, val in ((8, b"\x00\x08"), (10, b"\x08\x00")):
+                    dup = data[a:a + patch_at] + val + data[a + patch_at + 2:b]
+                    body = data[8:b] + data[b:]
+                    # the modified copy goes to the END of the header chunks seen so far (after everything that followed the original)
+                    body2 = data[8:len(data)]
+                    tail_at = len(data)
+                    for (a2, b2) in spans:
+                        if data[a2:a2 + 4] in (b"SSND", b"data"):
+                            tail_at = a2
+                            break
+                    if tail_at > b:
+                        body2 = data[8:tail_at] + dup + data[tail_at:]
+                        out.append(data[:4] + struct.pack(">I" if be else "<I", len(body2)) + body2)
     elif data[:4] == b"caff" and len(data) > 8:
         pos, spans = 8, []
         while pos + 12 <= len(data):
@@ -220,7 +236,7 @@ def exercise(data, sid=1, h=1, route="v", deep=True):
     L.append("err -")
     L.append("info %d" % h)
     if deep:
-        L += ["r %d s f 33" % h, "r %d i i 64" % h, "seek %d 0 0" % h, "r %d f f 1000" % h, "seek %d -1 2" % h, "r %d d f 5" % h, "seek %d 7 1" % h, "seek %d 0 17" % h,
+        L += ["cmd %d 0x1044" % h, "cmd %d 0x1045" % h, "r %d s f 33" % h, "r %d i i 64" % h, "seek %d 0 0" % h, "r %d f f 1000" % h, "seek %d -1 2" % h, "r %d d f 5" % h, "seek %d 7 1" % h, "seek %d 0 17" % h,
               "str %d get 1" % h, "str %d get 3" % h, "chunk iter %d - short" % h, "bext %d get" % h, "cue %d get" % h, "inst %d get" % h, "cmd %d 0x1040" % h,
               "seek %d 0 0" % h, "r %d s f 100000" % h, "r %d s f 3" % h]
     L.append("close %d" % h)
@@ -256,6 +272,16 @@ def run_batches(scripts, tag, timeout=120, env=None):
     h = sdrive.harness()
     tmpd = os.path.join(vlib.BUILD, "tmp")
     os.makedirs(tmpd, exist_ok=True)
+    # private temporary directories of harness runs that were killed (time budget, sanitizer abort) are left behind: drop the old ones
+    import shutil, time as _time
+    for e in os.listdir(tmpd):
+        if e.startswith("lt_"):
+            pth = os.path.join(tmpd, e)
+            try:
+                if _time.time() - os.path.getmtime(pth) > 900:
+                    shutil.rmtree(pth, ignore_errors=True)
+            except OSError:
+                pass
     batch = max(1, min(60, len(scripts) // (2 * vlib.NCPU) + 1))
     groups = [scripts[i:i + batch] for i in range(0, len(scripts), batch)]
 
